@@ -28,6 +28,9 @@ type Cfg struct {
 	FixedOpts      *drv.OpenOpts // when set, reopen uses these options
 	PageSizes      []int
 	MaxSize        bool
+	CommitWeight   int // weight of commit inside a write transaction (default 12 of ~100)
+	ReaderBoost    int // multiplier of reader begin/close weights
+	ReopenWeight   int // default 6
 }
 
 func DefaultCfg() Cfg {
@@ -181,21 +184,33 @@ func Next(t *rapid.T, e *drv.Env, cfg Cfg) drv.Op {
 		}
 		return drv.Op{Op: drv.OpOpen, Opts: &o}
 	}
+	rb := cfg.ReaderBoost
+	if rb == 0 {
+		rb = 1
+	}
+	cw := cfg.CommitWeight
+	if cw == 0 {
+		cw = 12
+	}
 	if e.RW == nil {
 		ws := []weighted{{60, drv.OpBeginRW}}
 		if cfg.Readers {
 			if len(e.RO) < cfg.MaxReaders {
-				ws = append(ws, weighted{12, drv.OpBeginRO})
+				ws = append(ws, weighted{12 * rb, drv.OpBeginRO})
 			}
 			if len(e.RO) > 0 {
-				ws = append(ws, weighted{8, drv.OpCloseRO}, weighted{6, drv.OpDumpRO}, weighted{6, "roread"})
+				ws = append(ws, weighted{8 * rb, drv.OpCloseRO}, weighted{6, drv.OpDumpRO}, weighted{6, "roread"})
 				if cfg.ErrProbes {
 					ws = append(ws, weighted{2, "rowrite"})
 				}
 			}
 		}
 		if cfg.Reopen && len(e.RO) == 0 {
-			ws = append(ws, weighted{6, drv.OpReopen})
+			rw := cfg.ReopenWeight
+			if rw == 0 {
+				rw = 6
+			}
+			ws = append(ws, weighted{rw, drv.OpReopen})
 		}
 		if cfg.Probes {
 			ws = append(ws, weighted{3, drv.OpProbe})
@@ -233,7 +248,7 @@ func Next(t *rapid.T, e *drv.Env, cfg Cfg) drv.Op {
 		return drv.Op{Op: k}
 	}
 	// inside a write transaction
-	ws := []weighted{{82, "bucketop"}, {12, drv.OpCommit}}
+	ws := []weighted{{82, "bucketop"}, {cw, drv.OpCommit}}
 	if cfg.Rollbacks {
 		ws = append(ws, weighted{3, drv.OpRollback})
 	}
